@@ -93,3 +93,51 @@ def prop_defaults(levels: tuple) -> dict[str, Any]:
             else:
                 out.pop(name, None)
     return out
+
+
+# ------------------------------------------------- multiple inheritance / empty bodies
+MI_SOURCE = '''
+from dataclasses import dataclass, field
+from models.zoo import VBase
+
+@dataclass(frozen=True)
+class MNamed{tag}(VBase):
+    name_kid: VBase | None = None
+    label: int = 0
+
+@dataclass(frozen=True)
+class MBodied{tag}(VBase):
+    body: tuple[VBase, ...] = ()
+    flag: int = field(default=1, compare=False)
+
+@dataclass(frozen=True)
+class MFunc{tag}(MNamed{tag}, MBodied{tag}):
+    pass
+
+@dataclass(frozen=True)
+class MEmpty{tag}(MNamed{tag}):
+    pass
+
+@dataclass(frozen=True)
+class MOverride{tag}(MNamed{tag}):
+    label: int = field(default=5, compare=False)
+    name_kid: VBase | None = None
+'''
+# expected user-field order (dataclass rule: bases in reverse MRO, overriding keeps position)
+MI_FIELDS = {
+    "MNamed": [("name_kid", "co"), ("label", "p")],
+    "MBodied": [("body", "ct"), ("flag", "pnc")],
+    "MFunc": [("body", "ct"), ("flag", "pnc"), ("name_kid", "co"), ("label", "p")],
+    "MEmpty": [("name_kid", "co"), ("label", "p")],
+    "MOverride": [("name_kid", "co"), ("label", "pnc")],
+}
+
+
+def make_mi_classes() -> tuple[str, dict[str, type]]:
+    _COUNTER[0] += 1
+    tag = f"{_COUNTER[0]}"
+    modname = f"vgen_mi_{tag}"
+    mod = types.ModuleType(modname)
+    sys.modules[modname] = mod
+    exec(compile(MI_SOURCE.format(tag=tag), modname, "exec"), mod.__dict__)
+    return tag, {k: mod.__dict__[f"{k}{tag}"] for k in MI_FIELDS}
